@@ -6,8 +6,29 @@ import ast
 from ..source import AnalysisError, const_value, walk_no_nested, norm
 
 
+def _reader_kinds_by_interpretation(tree):
+    """Loader.__init__ interpreted: the readers dict it builds (however it is written) and the `kind` each reader object ends up with"""
+    from ..models import ModelEval, PyObj
+    loader = tree.func("io/loader.py::Loader.__init__")
+    hooks = {"ext": {}, "globals": {}, "class": {}, "pkgfunc": {"io/utils.py::generate_fname": lambda *a, **k: "OUTDIR"}}
+    ev = ModelEval(tree, loader, {}, hooks)
+    obj = ev.instantiate(loader.cls, [1, "PATH"], {}, None)
+    rd = obj._attrs.get("readers")
+    if not isinstance(rd, dict) or not rd or not all(isinstance(v, PyObj) for v in rd.values()):
+        raise AnalysisError("Loader.__init__ does not leave a dict of reader objects in self.readers: %r" % (rd,))
+    readers = {k: v._cls for k, v in rd.items()}
+    kinds = {k: ev.obj_getattr(v, "kind") for k, v in rd.items()}
+    if not all(isinstance(k, str) for k in kinds.values()):
+        raise AnalysisError("reader kinds are not strings: %r" % (kinds,))
+    return readers, kinds
+
+
 def reader_kinds(tree):
     """{reader key in Loader.readers: kind literal} and the set of kinds."""
+    try:
+        return _reader_kinds_by_interpretation(tree)
+    except Exception as e:          # fall back to reading the literal; if that fails too the anchor is reported as missing
+        interp_error = e
     loader = tree.func("io/loader.py::Loader.__init__")
     readers = {}
     for n in walk_no_nested(loader.node):
